@@ -11,7 +11,7 @@ use ark_ff::{One, Zero};
 use ark_poly_commit::{LabeledCommitment, LabeledPolynomial, PolynomialCommitment};
 use ark_std::rand::Rng;
 
-pub const KINDS: &[&str] = &["value+delta", "cancel-in-group", "cancel-across-groups", "point-moved", "commitment-swapped"];
+pub const KINDS: &[&str] = &["value+delta", "cancel-in-group", "swap-in-group", "cancel-across-groups", "point-moved", "commitment-swapped"];
 
 pub fn generate(run_seed: u64) -> Scenario {
     let mut g = Gen::new(run_seed);
@@ -35,6 +35,15 @@ pub fn generate(run_seed: u64) -> Scenario {
                 }
                 "cancel-in-group" => {
                     // two positions sharing a point label
+                    for a in 0..n {
+                        for b in (a + 1)..n {
+                            if point_of(op, a) == point_of(op, b) && g.r.gen_bool(0.5) {
+                                faults.push(Fault { kind: k.to_string(), op: oi, target: a, aux: b, param: g.r.gen() });
+                            }
+                        }
+                    }
+                }
+                "swap-in-group" => {
                     for a in 0..n {
                         for b in (a + 1)..n {
                             if point_of(op, a) == point_of(op, b) && g.r.gen_bool(0.5) {
@@ -136,6 +145,22 @@ pub fn run<S: Scheme>(scn: &Scenario, log: &EventLog) -> RunResult {
                         let a = value_at::<S>(&mut bad, op, scn, &points, f.target).map(|v| { *v += d; });
                         let b = value_at::<S>(&mut bad, op, scn, &points, f.aux).map(|v| { *v -= d; });
                         a.is_some() && b.is_some() && bad_differs(&bad, &claim)
+                    }
+                }
+                "swap-in-group" => {
+                    // the claimed values of two positions at one point label change places
+                    let n = n_positions(op);
+                    if f.target >= n || f.aux >= n || f.target == f.aux || point_of(op, f.target) != point_of(op, f.aux) { false } else {
+                        let va = value_at::<S>(&mut bad, op, scn, &points, f.target).map(|v| *v);
+                        let vb = value_at::<S>(&mut bad, op, scn, &points, f.aux).map(|v| *v);
+                        match (va, vb) {
+                            (Some(va), Some(vb)) if va != vb => {
+                                if let Some(v) = value_at::<S>(&mut bad, op, scn, &points, f.target) { *v = vb; }
+                                if let Some(v) = value_at::<S>(&mut bad, op, scn, &points, f.aux) { *v = va; }
+                                bad_differs(&bad, &claim)
+                            }
+                            _ => false,
+                        }
                     }
                 }
                 "cancel-across-groups" => {
